@@ -71,7 +71,49 @@ Definition env_spec (nd td : dict) (prefix : str) (pfs : fields) (env : list (st
   vs <- populate afs vals ;;
   unalias_fields env_alias_keys pfs vs.
 
-Definition vals_eqb (a b : list val) : bool := val_eqb (VList a) (VList b).
+(* ---- canonical form: maps sorted by (string) key ---- *)
+Fixpoint str_leb (a b : str) : bool :=
+  match a, b with
+  | [], _ => true
+  | _ :: _, [] => false
+  | x :: a', y :: b' => if x <? y then true else if y <? x then false else str_leb a' b'
+  end.
+
+Definition key_leb (a b : val) : bool :=
+  match a, b with
+  | VStr x, VStr y => str_leb x y
+  | VInt x, VInt y => (x <=? y)%Z
+  | VBool x, VBool y => implb x y
+  | _, _ => true
+  end.
+
+Fixpoint kv_insert (kv : val * val) (l : list (val * val)) : list (val * val) :=
+  match l with
+  | [] => [kv]
+  | kv' :: r => if key_leb (fst kv) (fst kv') then kv :: l else kv' :: kv_insert kv r
+  end.
+
+Fixpoint canon (v : val) : val :=
+  match v with
+  | VPtr x => VPtr (canon x)
+  | VList l => VList (map canon l)
+  | VStruct l => VStruct (map canon l)
+  | VMap kvs => VMap (fold_right (fun kv acc => kv_insert (fst kv, canon (snd kv)) acc) [] kvs)
+  | _ => v
+  end.
+
+Definition cvals_eqb (a b : list val) : bool := val_eqb (canon (VList a)) (canon (VList b)).
+
+Definition cout_eqb (a b : outcome (list val)) : bool :=
+  match a, b with
+  | Ok x, Ok y => cvals_eqb x y
+  | Err _, Err _ => true
+  | Panic _, Panic _ => true
+  | _, _ => false
+  end.
+
+
+Definition vals_eqb (a b : list val) : bool := cvals_eqb a b.
 
 Definition out_eqb (a b : outcome (list val)) : bool :=
   match a, b with
